@@ -80,7 +80,9 @@ impl RefRx {
                 Seen::Malformed(m)
             }
             Ok(Parsed::Padding) => {
-                self.eff = Eff::Unknown;
+                // padding runs to the end of the frame: whatever is decapsulated next belongs to
+                // another frame and has no preceding start/complete packet in it
+                self.eff = Eff::Known(None);
                 Seen::Padding
             }
             Ok(Parsed::Packet(p, len)) => {
